@@ -18,11 +18,11 @@ Definition n_sib2 : str := [115; 105; 98; 108; 105; 110; 103; 95; 50].  (* sibli
 (* FormulaGrader(variables=['x','z'], numbered_vars=['a'], instructor_vars=['z'], blacklist=['sin'],
                  user_functions={'f': ...}, forbidden_strings=['1 + x'], required_functions=[]) *)
 Definition ex_cfg : rcfg :=
-  mkCfg [n_sin; n_cos; n_sqrt] [n_f] [] [n_sin] [] [[49; 32; 43; 32; 120]] [n_x; n_z] [n_a] [n_z] [n_pi] [n_pct].
+  mkCfg [n_sin; n_cos; n_sqrt] [n_f] [] [n_sin] [] [[49; 32; 43; 32; 120]] [n_x; n_z] [n_a] [n_z] [n_pi] [n_pct] [].
 Definition ex_cfg_required : rcfg :=
-  mkCfg [n_sin; n_cos; n_sqrt] [n_f] [] [] [n_cos] [] [n_x; n_z] [n_a] [n_z] [n_pi] [n_pct].
+  mkCfg [n_sin; n_cos; n_sqrt] [n_f] [] [] [n_cos] [] [n_x; n_z] [n_a] [n_z] [n_pi] [n_pct] [].
 Definition ex_cfg_whitelist : rcfg :=
-  mkCfg [n_sin; n_cos; n_sqrt] [n_f] [Some n_cos] [] [] [] [n_x; n_z] [n_a] [n_z] [n_pi] [n_pct].
+  mkCfg [n_sin; n_cos; n_sqrt] [n_f] [Some n_cos] [] [] [] [n_x; n_z] [n_a] [n_z] [n_pi] [n_pct] [].
 
 Definition q (z : Z) : val := VS (mkC (inject_Z z) 0).
 Definition const_fn (z : Z) : list val -> res val := fun _ => Ok (q z).
@@ -142,8 +142,23 @@ Lemma ex_list_sibling_config_error :
   /\ ordered_list_check eval1 [mk_box n_sib1 [115; 105; 98; 108; 105; 110; 103; 95; 50; 94; 50] [40; 120; 43; 49; 41; 94; 50]; mk_box n_sib2 s_honest [120; 43; 49; 43; 48; 42; 113; 113]] = inl GConfigError.
 Proof. vm_compute. split; reflexivity. Qed.
 
+(* a sibling that reaches the grader only through a DependentSampler (sample_from = {'s': DependentSampler(depends=
+   ['sibling_1'], formula='sibling_1+1')}), answers ['1', 's'], inputs ['1', 'sibling_1+1']: sibling_1 is sampled for box 2
+   and is scrubbed from the student's scope like the siblings named in the answer *)
+Definition dep_cfg : rcfg :=
+  mkCfg [n_sin; n_cos; n_sqrt] [] [] [] [] [] [n_x; [115]] [] [] [n_pi] [n_pct] [n_sib1].
+Definition dep_env : env :=
+  mkEnv (assoc [(n_x, q 2); ([115], q 10); (n_pi, q 3); (n_sib1, q 9)]) (assoc [(n_sin, const_fn 0)]) (assoc [(n_pct, (1 # 100)%Q)]).
+Definition dep_boxes : list box :=
+  [mkBox dep_cfg n_sib1 [[49]] None [49] [dep_env] ex_compare;
+   mkBox dep_cfg n_sib2 [[115]] None [115; 105; 98; 108; 105; 110; 103; 95; 49; 43; 49] [dep_env] ex_compare].
+Lemma ex_list_sibling_through_sampler :
+  map (fun b => map fst (sibling_formulas_of dep_boxes b)) dep_boxes = [[n_sib1]; [n_sib1]]
+  /\ ordered_list_check eval1 dep_boxes = inl (GEvalError EUndefVar).
+Proof. vm_compute. split; reflexivity. Qed.
+
 (* ---------- SumGrader ---------- *)
-Definition sum_cfg : rcfg := mkCfg [n_sin; n_cos; n_sqrt] [] [] [n_sqrt] [] [[49; 48]] [n_z] [] [n_z] [n_pi] [n_pct].
+Definition sum_cfg : rcfg := mkCfg [n_sin; n_cos; n_sqrt] [] [] [n_sqrt] [] [[49; 48]] [n_z] [] [n_z] [n_pi] [n_pct] [].
 Definition sum_P : names := [n_sin; n_cos].
 Definition all_entered : entered := mkEntered true true true true.
 Definition only_summand : entered := mkEntered false false true false.
